@@ -7,8 +7,9 @@ EXTENDS LwRing
 
 MDim(A) == Len(A)
 MId(n) == TLCEval([i \in 1..n |-> [j \in 1..n |-> IF i = j THEN One ELSE Zero]])
-MMul(A, B) == LET n == Len(A) IN
-   TLCEval([i \in 1..n |-> [j \in 1..n |-> RSumSeq([k \in 1..n |-> RMul(A[i][k], B[k][j])])]])
+MMul(A, B) == LET n == Len(A) IN      \* sparse in the rows of A (embedded components are mostly identity)
+   TLCEval([i \in 1..n |-> LET nz == {k \in 1..n : A[i][k] # Zero} IN
+              [j \in 1..n |-> FoldSet(LAMBDA k, acc : RAdd(acc, RMul(A[i][k], B[k][j])), Zero, nz)]])
 MDag(A) == LET n == Len(A) IN TLCEval([i \in 1..n |-> [j \in 1..n |-> RConj(A[j][i])]])
 IsUnitary(A) == MMul(MDag(A), A) = MId(Len(A))
 MBlock(A, m) == [i \in 1..m |-> [j \in 1..m |-> A[i][j]]]          \* leading m x m block
